@@ -18,16 +18,17 @@ import (
 //
 // The manual does not say which characters around a number, a boolean word or a datetime are ignored; two readings are
 // reasonable (the ASCII blanks only, or every Unicode white space), and the reference model takes no side here. Under
-// either reading padding is a set of characters removed from both ends, and the ASCII blank and tab belong to it
-// (' 1 ' = 1 is TRUE, main family). Hence the invariant, stated on csvq's own answers: adding an ASCII blank or tab to
-// the front, to the back or to both ends of a text changes nothing in what the text is taken for - every comparison
+// either reading padding is a set of characters removed from both ends, and the ASCII blank U+0020 belongs to it
+// (' 1 ' = 1 is TRUE, main family; nothing is assumed about the tab or any other character). Hence the invariant,
+// stated on csvq's own answers: adding an ASCII blank to the front, to the back or to both ends of a text changes
+// nothing in what the text is taken for - every comparison
 // with every partner, every arithmetic result, its ternary value and every cast of it stay the same, whatever
 // other (multi-byte) blanks the text carries at its ends. A trimming that looks at one end to decide about the other
 // breaks it: '<U+3000>1' = 1 is UNKNOWN while ' <U+3000>1' = 1 is TRUE.
 func init() {
 	core.Extend("C06", "family padding: 10 cores (integer, float, exponent, boolean words, date, datetime, plain text, empty) x 12 x 12 paddings of the two ends (none, blank, tab, line feed, NEL, NBSP, U+1680, U+2003, U+2028, U+3000, and the non-blanks U+200B, U+FEFF) "+
 		"x 15 partners of every value class x (6 relational operators in both operand orders, + and %, the ternary value, the casts INTEGER FLOAT DATETIME BOOLEAN TERNARY); "+
-		"oracle (invariant on csvq's own answers): the same answers after an ASCII blank or tab is added before, after or around the text", c06PaddingRun)
+		"oracle (invariant on csvq's own answers): the same answers after an ASCII blank (U+0020) is added before, after or around the text", c06PaddingRun)
 }
 
 var c06PadCores = []string{"1", "-5", "1.5", "1e2", "true", "f", "2012-01-01", "2012-01-01 00:00:00", "abc", ""}
@@ -129,7 +130,7 @@ func c06PaddingOver(c *core.Ctx, only *c06PaddingCase) {
 					continue
 				}
 				multibyte := len(lp) > 1 || len(rp) > 1
-				for _, blank := range []string{" ", "\t"} {
+				for _, blank := range []string{" "} {
 					for vi, variant := range []string{blank + s, s + blank, blank + s + blank} {
 						where := [...]string{"before", "after", "around"}[vi]
 						got, err := c06PadObserve(env, castStmt, partners, variant)
